@@ -176,6 +176,8 @@ func getLineByOffset(str string, offset int) (linestr string, line, column int) 
 	} else {
 		offset = len(linestr)
 	}
+	// a tab has no fixed width, show it as a space
+	linestr = strings.ReplaceAll(linestr, "\t", " ")
 	column = runewidth.StringWidth(linestr[:offset])
 	return
 }
